@@ -342,6 +342,8 @@ def run_case(case):
         r = random.Random(case["seed"] + 77)
         for _ in range(max(4, case["n"] // 3)):
             await run_queued(flavor, r, cnt, v, sigs)
+        for _ in range(4):
+            await run_h2_overlap(flavor, r, cnt, v, sigs)
 
     run_flavor(flavor, None, main, seed=case["seed"])
     if flavor != "sync":
@@ -417,6 +419,74 @@ async def run_queued(flavor, r, cnt, v, sigs):
     if bad:
         v("queued:assigned-idle-connection-closed-before-use", f"a transport was closed while a queued request that had just been "
           f"given its connection was waiting to use it: {bad[:2]}", dict(ctx, closes=bad[:4]))
+    await guarded(flavor, api.close_pool)
+
+
+async def run_h2_overlap(flavor, r, cnt, v, sigs):
+    """HTTP/2: requests that overlap on one connection - the second one is admitted while the first one holds the only
+    stream slot a connection has until the server's SETTINGS arrive (or the server allows one stream). The connection
+    is idle, and its keep-alive period starts, when the LAST of them is closed: while a response is in flight it does
+    not report idle (a busy connection counted as idle costs another origin's idle connection its place), and a
+    sequential request right after the last close reuses it."""
+    import anyio
+    from ..endpoints import Resp
+    net = simnet.Net()
+    exp = r.choice([2.0, 5.0])
+    slow = exp + r.choice([0.5, 3.0])
+    mcs = r.choice([None, 1, 100])
+
+    def responder(req, origin):
+        tok = req.token or b"-"
+        return Resp(200, b"OK", [(b"X-Echo", tok)], b"x" * 300, delay=slow if tok == b"B" else 0.0)
+    h2s = {"data_chunk": 4000}
+    if mcs is not None:
+        h2s["settings"] = {3: mcs}
+    origins = [endpoints.Origin(net, f"o{i}.test", 443, tls=True, alpn=["h2"], responder=responder, h2_script=dict(h2s)) for i in range(2)]
+    pool = mk_pool(flavor, net, http2=True, max_connections=3, max_keepalive_connections=r.choice([1, 2, None]), keepalive_expiry=exp)
+    api = API(flavor, pool, net)
+    res = {}
+    seen = {"busy_idle": None}
+    ctx = {"flavor": flavor, "keepalive_expiry": exp, "slow_response_after": slow, "max_concurrent_streams": mcs}
+    CALL.set("w")
+    other = await guarded(flavor, lambda: api.request("GET", "https://o1.test/w", headers=[("X-Token", "w")]))   # an idle connection elsewhere
+
+    async def caller(tok, dt):
+        CALL.set(tok)
+        await api.sleep(dt)
+        res[tok] = await guarded(flavor, lambda: api.request("GET", f"https://o0.test/{tok}", headers=[("X-Token", tok)]))
+
+    async def watcher():
+        await api.sleep(slow / 2)   # A is done, B's response is still to come
+        for c in pool.connections:
+            if "o0.test" in c.info() and c.is_idle():
+                seen["busy_idle"] = c.info()
+
+    async def body():
+        async with anyio.create_task_group() as tg:
+            tg.start_soon(caller, "A", 0.0)
+            tg.start_soon(caller, "B", 0.0)
+            tg.start_soon(watcher)
+        return True
+    n_before = None
+    out = await guarded(flavor, body)
+    cnt["h2_overlap_histories"] = cnt.get("h2_overlap_histories", 0) + 1
+    sigs.add(f"h2-overlap|{flavor}|{exp}|{slow}|{mcs}")
+    if out.kind != "ok" or any(o.kind != "ok" for o in res.values()) or other.kind != "ok":
+        v("h2-overlap:request-failed", f"{out!r} {res!r} {other!r}"[:300], ctx)
+        await guarded(flavor, api.close_pool)
+        return
+    if seen["busy_idle"]:
+        v("h2-overlap:connection-with-a-response-in-flight-reports-idle", f"{seen['busy_idle']} while request B was waiting for its "
+          f"response", ctx)
+    n_before = len(net.transports)
+    CALL.set("C")
+    outc = await guarded(flavor, lambda: api.request("GET", "https://o0.test/C", headers=[("X-Token", "C")]))
+    cnt["r1_reuse_expected"] += 1
+    if outc.kind != "ok":
+        v("h2-overlap:sequential-request-failed", f"{outc!r}", ctx)
+    elif len(net.transports) != n_before:
+        v("r1:no-reuse-of-idle-unexpired-connection:h2-overlap", f"the connection became idle when request B was closed, {slow} s "
+          f"after request A; a request right after that opened a new connection (keep-alive {exp} s)", ctx)
     await guarded(flavor, api.close_pool)
 
 
